@@ -44,13 +44,13 @@ var specs = map[string]*propSpec{
 	"C04": mk("C04", []string{"HarnessCallback", "HarnessAttrQuery", "HarnessMetadata"}, nil, []string{"C04.enveloped-success", "C04.redirect-success", "C04.attrquery-success", "C04.signed-metadata"},
 		"composition level (DESIGN §5 C04): what is signed is what is sent; agreement of xmlsig's canonical form with exclusive C14N of the wire bytes, and RSA/SHA themselves, are outside the claim",
 		"stored requests with binding POST or Redirect, any consumer URL"),
-	"C05": mk("C05", []string{"HarnessSSOSig"}, []string{"HarnessSSOPlacementSig"}, ssoCovers,
-		"idealised signatures: a signature verifies iff the simulated SP produced it over the same octets, algorithm and key; in these harnesses the SP signs nothing, so every signature value is a forgery",
+	"C05": mk("C05", []string{"HarnessSSOSig", "HarnessSSOSigned"}, []string{"HarnessSSOPlacementSig"}, append(append([]string{}, ssoCovers...), "C05.signed-request-accepted"),
+		"idealised signatures: a signature verifies iff the simulated SP produced it over the same octets, algorithm and key; HarnessSSOSig / HarnessSSOPlacementSig: the SP signs nothing, so every signature value is a forgery; HarnessSSOSigned: the SP signed exactly one Redirect-binding request (Go-style percent-encoding), the attacker delivers arbitrary parameter values",
 		"KeyDescriptor <= 1 / <= 2, X509Data <= 1 / <= 2"),
 	"C06": mk("C06", []string{"HarnessSSODecode", "HarnessSSOContent"}, []string{"HarnessSSOACSContent"}, ssoCovers),
 	"C07": mk("C07", []string{"HarnessLogoutConformant", "HarnessAttrQueryConformant", "HarnessSSOConformant"}, nil,
-		[]string{"C07.logout-redirect-binding", "C07.logout-post-binding", "C07.attrquery-with-destination", "C07.sso-redirect-binding", "C07.sso-post-binding"},
-		"conformant = schema-valid at struct level (Level S), unsigned where nothing requires signing; byte-level serialisation variety and signed requests are outside this check"),
+		[]string{"C07.logout-redirect-binding", "C07.logout-post-binding", "C07.attrquery-with-destination", "C07.sso-redirect-binding", "C07.sso-post-binding", "C07.sso-redirect-binding-signed"},
+		"conformant = schema-valid at struct level (Level S), unsigned where nothing requires signing, or (AuthnRequest, Redirect binding) signed by the registered RSA key over Go-style percent-encoded octets; byte-level serialisation variety, other percent-encoding styles and enveloped signatures are outside this check"),
 	"C08": mk("C08", ssoAll, []string{"HarnessSSOACSContent"}, ssoCovers),
 	"C09": mk("C09", append(append([]string{}, ssoAll...), "HarnessCallback", "HarnessLogout", "HarnessAttrQuery", "HarnessMetadata", "HarnessRegistration"), nil, nil,
 		"panics inside libraries on malformed bytes are outside the claim (Level S: every type-consistent decoded struct)"),
